@@ -561,3 +561,149 @@ func runMpscOneShot(w *rec.Writer, d stressDesc) {
 	w.Case(d, rec.I(8), rec.I(rounds), rec.I(observed))
 	w.Stat("mpsc_oneshot.rounds", rounds)
 }
+
+// ------------------------------------------------------------------------------------------
+// (7) cancellation landing DURING a call: a context that becomes cancelled after its N-th
+// consultation (Err() or Done()), deterministic, no timing.  For Send the record says whether the
+// item was delivered afterwards: "delivered <=> Send returned true" (exactly-once hand-over).
+
+type flipCtx struct {
+	parent context.Context
+	n      int32
+	calls  atomic.Int32
+}
+
+var closedChan = func() chan struct{} { c := make(chan struct{}); close(c); return c }()
+
+func (c *flipCtx) flipped() bool { return c.calls.Add(1) > c.n }
+func (c *flipCtx) Err() error {
+	if c.flipped() {
+		return context.Canceled
+	}
+	return c.parent.Err()
+}
+func (c *flipCtx) Done() <-chan struct{} {
+	if c.flipped() {
+		return closedChan
+	}
+	return c.parent.Done()
+}
+func (c *flipCtx) Deadline() (time.Time, bool) { return time.Time{}, false }
+func (c *flipCtx) Value(any) any               { return nil }
+
+type sweepDesc struct {
+	Kind     string `json:"kind"`
+	Target   int    `json:"target"`   // 0 QueueMedium, 1 AccumulatorMedium, 2 ChannelMedium, 3 mpmc.Queue
+	Op       int    `json:"op"`       // opSend / opRecv
+	Scenario int    `json:"scenario"` // Send: 0 open, 1 closed; Recv: 0 one item buffered, 1 empty open, 2 empty closed
+	N        int    `json:"n"`
+}
+
+// sweepTarget hides the four objects behind one face
+type sweepTarget struct {
+	send  func(ctx context.Context, v int) bool
+	recv  func(ctx context.Context) (int, bool)
+	close func()
+	latch func() bool
+}
+
+func newSweepTarget(target int) (*sweepTarget, *msgTable) {
+	tb := &msgTable{}
+	if target == 3 {
+		q := mpmc.MustQueue[int](4, 0)
+		return &sweepTarget{
+			send:  func(ctx context.Context, v int) bool { return q.Send(ctx, v) },
+			recv:  func(ctx context.Context) (int, bool) { return q.Recv(ctx) },
+			close: q.Close,
+			latch: func() bool { return false },
+		}, tb
+	}
+	api := mediaAPIs[target]
+	m := newMedium(target, 4)
+	return &sweepTarget{
+		send: func(ctx context.Context, v int) bool { return api.send(m, ctx, tb.make(v)) },
+		recv: func(ctx context.Context) (int, bool) {
+			p, ok := api.recv(m, ctx)
+			if !ok {
+				return 0, false
+			}
+			return tb.num(p), true
+		},
+		close: func() { api.close(m) },
+		latch: func() bool { return api.latch(m) },
+	}, tb
+}
+
+func runSweep(w *rec.Writer, d sweepDesc) {
+	t, tb := newSweepTarget(d.Target)
+	bg := context.Background()
+	res, val, delivered, latch := 0, 0, 0, false
+	if d.Op == opSend {
+		if d.Scenario == 1 {
+			t.close()
+		}
+		res, _ = call(false, func(ctx context.Context) callResult {
+			return callResult{t.send(&flipCtx{parent: ctx, n: int32(d.N)}, 7), 0}
+		})
+		t.close()
+		for {
+			v, ok := t.recv(bg)
+			if !ok {
+				break
+			}
+			if v == 7 {
+				delivered++
+			} else {
+				delivered += 100
+			}
+		}
+	} else {
+		if d.Scenario == 0 {
+			t.send(bg, 7)
+		}
+		if d.Scenario == 2 {
+			t.close()
+		}
+		// parks iff the context is still live when the call reaches its select (the oracle
+		// decides whether that is right); the expectation only selects the waiting time
+		exp := d.Scenario == 1 && d.N >= 1
+		res, val = call(exp, func(ctx context.Context) callResult {
+			v, ok := t.recv(&flipCtx{parent: ctx, n: int32(d.N)})
+			return callResult{ok, v}
+		})
+		latch = t.latch()
+		// whatever the swept call did, nothing may be lost: close and drain with a live context
+		t.close()
+		for {
+			v, ok := t.recv(bg)
+			if !ok {
+				break
+			}
+			if v == 7 {
+				delivered++
+			} else {
+				delivered += 100
+			}
+		}
+	}
+	runtime.KeepAlive(tb)
+	w.Case(d, rec.I(9), rec.I(d.Target), rec.I(d.Op), rec.I(d.Scenario), rec.I(d.N),
+		rec.I(res), rec.I(val), rec.I(delivered), rec.Bool(latch))
+	w.Stat("sweep.cases", 1)
+}
+
+func runSweeps(w *rec.Writer) {
+	for target := 0; target <= 3; target++ {
+		for n := 0; n <= 8; n++ {
+			runSweep(w, sweepDesc{"sweep", target, opSend, 0, n})
+			if target != 2 { // ChannelMedium.Send after Close panics
+				runSweep(w, sweepDesc{"sweep", target, opSend, 1, n})
+			}
+			runSweep(w, sweepDesc{"sweep", target, opRecv, 0, n})
+			runSweep(w, sweepDesc{"sweep", target, opRecv, 2, n})
+			if n <= 3 {
+				runSweep(w, sweepDesc{"sweep", target, opRecv, 1, n})
+			}
+		}
+	}
+}
